@@ -3,10 +3,15 @@ package client
 import (
 	"bytes"
 	"context"
+	"encoding/json"
+	"io"
+	"net/http"
+	"strings"
 
 	"github.com/ipni/go-libipni/dhash"
 	"github.com/ipni/go-libipni/find/model"
 	"github.com/libp2p/go-libp2p/core/peer"
+	b58 "github.com/mr-tron/base58/base58"
 	"github.com/multiformats/go-multihash"
 )
 
@@ -28,6 +33,35 @@ func (s *c12store) FindMetadata(ctx context.Context, hvk []byte) ([]byte, error)
 	return s.mds[string(hvk)], nil
 }
 
+// the same store behind dhstore's HTTP API (/encrypted/multihash/<b58>, /metadata/<b58>)
+type c12rt struct{ st *c12store }
+
+func (r *c12rt) RoundTrip(req *http.Request) (*http.Response, error) {
+	answer := func(status int, v interface{}) (*http.Response, error) {
+		var body []byte
+		if v != nil {
+			b, err := json.Marshal(v)
+			verif_Assume(err == nil)
+			body = b
+		}
+		return &http.Response{StatusCode: status, Header: http.Header{}, Body: io.NopCloser(bytes.NewReader(body)), Request: req}, nil
+	}
+	p := req.URL.Path
+	for dmh, evks := range r.st.evks {
+		if p == "/encrypted/multihash/"+multihash.Multihash(dmh).B58String() {
+			return answer(http.StatusOK, &model.FindResponse{EncryptedMultihashResults: []model.EncryptedMultihashResult{{Multihash: multihash.Multihash(dmh), EncryptedValueKeys: evks}}})
+		}
+	}
+	if strings.HasPrefix(p, "/metadata/") {
+		for hvk, emd := range r.st.mds {
+			if p == "/metadata/"+b58.Encode([]byte(hvk)) {
+				return answer(http.StatusOK, &struct{ EncryptedMetadata []byte }{emd})
+			}
+		}
+	}
+	return answer(http.StatusNotFound, nil)
+}
+
 type c12triple struct {
 	pid     peer.ID
 	ctx, md []byte
@@ -45,13 +79,17 @@ func VerifC12_FindWorkflow() {
 	verif_Assume(err == nil)
 	st := &c12store{evks: map[string][][]byte{}, mds: map[string][]byte{}}
 	n := verif_Choose("indexedTriples", 0, 2+verif_Tier())
+	sameCtx := n > 1 && verif_Bool("providersShareContextID")
 	var triples []c12triple
 	dmh := string(dhash.SecondMultihash(mh))
 	for i := 0; i < n; i++ {
 		pidBytes := []byte{0x00, 0x02, byte(0xa0 + i), 0x77}
 		pid, perr := peer.IDFromBytes(pidBytes)
 		verif_Assume(perr == nil)
-		t := c12triple{pid: pid, ctx: []byte{byte(0xc0 + i)}, md: []byte{0xd0, byte(i)}[:1+verif_Choose("metadataExtraLen", 0, 1)], indexed: !verif_Bool("metadataRemoved")}
+		t := c12triple{pid: pid, ctx: []byte{byte(0xc0 + i)}, md: []byte{byte(0xd0 + i), byte(i)}[:1+verif_Choose("metadataExtraLen", 0, 1)], indexed: !verif_Bool("metadataRemoved")}
+		if sameCtx {
+			t.ctx = []byte{0xc0} // context IDs are scoped to their provider
+		}
 		vk := dhash.CreateValueKey(t.pid, t.ctx)
 		evk, eerr := dhash.EncryptValueKey(vk, mh)
 		verif_Assume(eerr == nil)
@@ -69,8 +107,15 @@ func VerifC12_FindWorkflow() {
 			st.evks[dmh] = append(st.evks[dmh], junk)
 		}
 	}
-	// through the public constructor: metadata-only mode over the model store
-	c, cerr := NewDHashClient(WithDHStoreAPI(st), WithMetadataOnly(true))
+	// through the public constructor: metadata-only mode over the model store,
+	// reached directly or through the client's own HTTP dhstore backend
+	var c *DHashClient
+	var cerr error
+	if verif_Bool("dhstoreOverHTTP") {
+		c, cerr = NewDHashClient(WithDHStoreURL("http://dhstore.example"), WithClient(&http.Client{Transport: &c12rt{st: st}}), WithMetadataOnly(true))
+	} else {
+		c, cerr = NewDHashClient(WithDHStoreAPI(st), WithMetadataOnly(true))
+	}
 	verif_Assume(cerr == nil && c != nil)
 	resp, ferr := c.Find(context.Background(), mh)
 	verif_Reach("found")
